@@ -264,6 +264,14 @@ def burnPool (s : State) (amt : Int) : Option State :=
   else if s.pool < amt then none
   else some { s with pool := s.pool - amt, supply := s.supply - amt }
 
+/-- `mint` (reward.go): `MintCoins` into the staking pool, then `SendCoinsFromModuleToAccount`; when the
+send fails the minted coins stay in the pool -/
+def mintTo (s : State) (amount : Int) (to : Addr) : State :=
+  let s1 := { s with pool := s.pool + amount, supply := s.supply + amount }
+  match fromPool s1 to amount with
+  | some s2 => s2
+  | none => s1
+
 /-! ## Jailing, forced unstake, slashing (valStateChanges.go, slash.go) -/
 
 /-- `JailValidator` -/
@@ -688,6 +696,16 @@ inductive Op where
   /-- any other activity (sends, fees, rewards net of the mint-and-send through the pool) on an
   ordinary account -/
   | credit (a : Addr) (d : Int)
+  /-- a relay reward or proposer reward paid through `mint` -/
+  | reward (to : Addr) (amount : Int)
+  /-- `MsgSend` whose recipient is the address of the staking pool's module account (nothing in
+  `x/auth` or `x/nodes` rejects it) -/
+  | sendToPool (sender : Addr) (amount : Int)
+
+/-- the operation is a plain transfer to the staking pool's address -/
+def Op.isPoolSend : Op → Bool
+  | .sendToPool _ _ => true
+  | _ => false
 
 def step (s : State) : Op → State
   | .stake h m signer => (handleStake s h m signer).1
@@ -698,6 +716,10 @@ def step (s : State) : Op → State
   | .endBlock h t => (endBlock s h t).1
   | .setParams p => { s with params := p }
   | .credit a d => { s with bal := aset s.bal a (balOf s a + d), supply := s.supply + d }
+  | .reward to amount => mintTo s amount to
+  | .sendToPool sender amount =>
+    if amount ≤ 0 ∨ balOf s sender < amount then s
+    else { s with bal := aset s.bal sender (balOf s sender - amount), pool := s.pool + amount }
 
 def run (s : State) (ops : List Op) : State := ops.foldl step s
 
